@@ -1,44 +1,70 @@
 package np
 
 import (
-	"strings"
 	"flag"
 	"fmt"
+	"sort"
+	"strings"
 	"time"
 )
+
+var registry = map[string]func(*Ctx){}
+
+func register(id string, f func(*Ctx)) { registry[id] = f }
 
 func Main(args []string) int {
 	fs := flag.NewFlagSet("npcheck", flag.ContinueOnError)
 	prop := fs.String("prop", "", "property id (C01..C20)")
 	tier := fs.String("tier", "quick", "quick|thorough")
 	repo := fs.String("repo", "/repo", "repository root")
-	dump := fs.String("dump", "", "debug: dump info (funcs)")
+	dump := fs.String("dump", "", "debug: funcs | fn:<substring>")
+	noEv := fs.Bool("no-evidence", false, "do not write evidence files")
 	if err := fs.Parse(args); err != nil {
 		return 2
 	}
-	_ = prop
-	_ = tier
 	t0 := time.Now()
+	if *dump == "" && registry[*prop] == nil {
+		var ids []string
+		for id := range registry {
+			ids = append(ids, id)
+		}
+		sort.Strings(ids)
+		fmt.Println("unknown property; have:", strings.Join(ids, " "))
+		return 2
+	}
 	p, err := Load(LoadConfig{Dir: *repo})
 	if err != nil {
-		fmt.Println("load error:", err)
+		fmt.Printf("VIOLATION property=%s replay=none rule=load :: %v\n", *prop, err)
 		return 1
 	}
-	fmt.Printf("loaded %d pkgs, %d funcs in %v; errs=%d\n", len(p.Pkgs), len(p.Funcs), time.Since(t0), len(p.LoadErrs))
-	for _, e := range p.LoadErrs {
-		fmt.Println("  ", e)
-	}
-	if strings.HasPrefix(*dump, "fn:") {
-		for _, f := range p.Funcs {
-			if strings.Contains(FuncName(f), (*dump)[3:]) {
-				p.DumpFn(f)
+	if *dump != "" {
+		fmt.Printf("loaded %d pkgs, %d funcs in %v; errs=%d\n", len(p.Pkgs), len(p.Funcs), time.Since(t0), len(p.LoadErrs))
+		if strings.HasPrefix(*dump, "fn:") {
+			for _, f := range p.Funcs {
+				if strings.Contains(FuncName(f), (*dump)[3:]) {
+					p.DumpFn(f)
+				}
 			}
 		}
-	}
-	if *dump == "funcs" {
-		for _, f := range p.Funcs {
-			fmt.Println(FuncName(f), p.Pos(f.Pos()))
+		if *dump == "funcs" {
+			for _, f := range p.Funcs {
+				fmt.Println(FuncName(f), p.Pos(f.Pos()))
+			}
 		}
+		return 0
 	}
-	return 0
+	c := NewCtx(p, *prop, *tier)
+	c.Config = "linux/amd64"
+	for _, e := range p.LoadErrs {
+		c.Broken("load", "type-error", e)
+	}
+	func() {
+		defer func() {
+			if r := recover(); r != nil {
+				c.Broken("engine", "panic", fmt.Sprint(r))
+			}
+		}()
+		registry[*prop](c)
+	}()
+	return c.Finish(t0, !*noEv)
 }
